@@ -64,6 +64,19 @@ def label_source():
                         if idx is not None: exp[s.task_name].pop(idx)
                     if after != exp:
                         fails.append({'key': f"post_send {l1}/{l2}/{order}", 'failed_clauses': [f"C16: after post_send of ({s.task_name}, cron={s.cron}, time={s.time}) the lists are {after}, expected {exp}"]}); break
+    # a task of ANOTHER broker registered globally under the same name as one of this broker's own tasks (shared-broker tasks): the own task and its schedules win
+    fresh_registry(); b = InMemoryBroker(); other = InMemoryBroker(); n += 1
+    async def f(): pass
+    own = b.register_task(f, task_name='same', schedule=[{'cron': '5 * * * *'}, {'time': T1}])
+    foreign = other.register_task(f, task_name='same2', schedule=[{'cron': '9 * * * *'}]); foreign.task_name = 'same'
+    type(b).global_task_registry['same'] = foreign
+    src = LabelScheduleSource(b); got = asyncio.run(src.get_schedules())
+    have = [(s.task_name, s.cron, s.time) for s in got]
+    if have != [('same', '5 * * * *', None), ('same', None, T1)]: fails.append({'key': 'shadowed-global-task', 'failed_clauses': [f"C16: a globally registered task of another broker shares the name of this broker's own scheduled task: get_schedules listed {have}, expected the own task's cron and one-shot entries"]})
+    else:
+        src.post_send(got[1])
+        if [dict(e) for e in own.labels['schedule']] != [{'cron': '5 * * * *'}]: fails.append({'key': 'shadowed-global-task/post_send', 'failed_clauses': [f"C16: the fired one-shot entry of the own task was not removed when a foreign task shares its name: {own.labels['schedule']}"]})
+    fresh_registry()
     return fails, n
 
 # ---------------------------------------------------------------- (b)
@@ -182,7 +195,7 @@ def loop_case(start_off, horizon, oneshots, crons, failing_source, failing_send,
     b = B()
     async def f(): pass
     for i, off in enumerate(oneshots): b.register_task(f, task_name=f'once{i}', schedule=[{'time': BASE + _dt.timedelta(seconds=off)}])
-    for i, c in enumerate(crons): b.register_task(f, task_name=f'cron{i}', schedule=[{'cron': c}])
+    for i, c in enumerate(crons): b.register_task(f, task_name=f'cron{i}', schedule=[dict(c) if isinstance(c, dict) else {'cron': c}])          # a dict entry may carry a cron_offset
     class Bad(ScheduleSource):
         async def get_schedules(self): raise RuntimeError("listing failed")
     class Slow(LabelScheduleSource):
@@ -196,14 +209,17 @@ def loop_case(start_off, horizon, oneshots, crons, failing_source, failing_send,
             return list(self.cache)
         def post_send(self, task):
             if task.time is not None: self.cache = [x for x in self.cache if x is not task and x.schedule_id != task.schedule_id]
-    sources = [Slow(b) if slow_listing else (Stable(LabelScheduleSource(b)) if stable_ids else LabelScheduleSource(b))] + ([Bad()] if failing_source else [])
+    class AsyncStable(Stable):          # the same with an `async def post_send` (allowed by ScheduleSource): on_ready must await it
+        async def post_send(self, task): Stable.post_send(self, task)
+    sources = [Slow(b) if slow_listing else ((AsyncStable if stable_ids == 'async' else Stable)(LabelScheduleSource(b)) if stable_ids else LabelScheduleSource(b))] + ([Bad()] if failing_source else [])
     sched = TaskiqScheduler(b, sources)
     async def main():
         await asyncio.sleep(start_off)
         if entry == 'loop': t = asyncio.ensure_future(run_mod.run_scheduler_loop(sched))
         else:          # the whole `taskiq scheduler` entry point: start-up of the sources, the optional skip of the first run, then the loop
             from taskiq.cli.scheduler.args import SchedulerArgs
-            t = asyncio.ensure_future(run_mod.run_scheduler(SchedulerArgs(scheduler=sched, modules=[], configure_logging=False, skip_first_run=(entry == 'cli-skip-first-run'))))
+            a_ = SchedulerArgs.from_cli(['replay_module:scheduler'] + (['--skip-first-run'] if entry == 'cli-skip-first-run' else [])); a_.scheduler = sched; a_.configure_logging = False          # the real option parser decides skip_first_run
+            t = asyncio.ensure_future(run_mod.run_scheduler(a_))
         await asyncio.sleep(horizon - start_off); t.cancel()
         try: await t
         except asyncio.CancelledError: pass
@@ -227,6 +243,15 @@ def loop_case(start_off, horizon, oneshots, crons, failing_source, failing_send,
         if len(mins) != len(k): pr.append(f"C15: cron schedule {c!r} sent more than once in a minute: {k}")
         first = int(start_off // 60); last = int((horizon - 1) // 60)
         import pycron
+        if isinstance(c, dict):          # cron entry with an offset: the wall clock it is matched against is UTC shifted by the offset (timedelta) / the zone's local time
+            import zoneinfo
+            off_ = c.get('cron_offset'); expr_ = c['cron']
+            def wall(mi):
+                u = BASE + _dt.timedelta(minutes=mi)
+                return u + off_ if isinstance(off_, _dt.timedelta) else u.astimezone(zoneinfo.ZoneInfo(off_))
+            want = [mi for mi in range(first, last + 1) if pycron.is_now(expr_, wall(mi))]
+            if mins != want: pr.append(f"C13: cron schedule {expr_!r} with offset {off_!r} declared in a task's schedule label was sent in minutes {mins} of {BASE.isoformat()}, expected {want}")
+            continue
         want = [mi for mi in range(first, last + 1) if pycron.is_now(c, BASE + _dt.timedelta(minutes=mi))]
         if host_offset_h and mins != want: pr.append(f"C13: cron schedule {c!r} sent by the scheduler loop in minutes {mins} of {BASE.isoformat()} on a host with UTC offset {host_offset_h:+}h, expected {want} (UTC is the reference when no offset is given)")
         if failing_send and i == 0 and want: want = want[1:] if mins and mins[0] != want[0] else want
@@ -261,12 +286,16 @@ def run(sc):
         for start_off in (0.4, 30.0):          # through the `taskiq scheduler` entry point (default: the first poll happens at start)
             pr = loop_case(start_off, 330.0, [start_off + 10.0, 90.0, 200.0], ['* * * * *'], False, False, entry='cli'); n += 1
             if pr: fails.append({'key': f"run_scheduler/start+{start_off}", 'failed_clauses': pr})
+        pr = loop_case(0.4, 330.0, [], [{'cron': '* 14 * * *', 'cron_offset': _dt.timedelta(hours=2)}, {'cron': '* 13 * * *', 'cron_offset': 'Europe/Berlin'}, {'cron': '* 12 * * *', 'cron_offset': _dt.timedelta(hours=-3)}], False, False); n += 1
+        if pr: fails.append({'key': "loop/label-source/cron-offsets", 'failed_clauses': pr})
         for off_h in (5.5, -8.0):          # a host whose local time is not UTC: naive datetime.now() differs from UTC there
             pr = loop_case(0.4, 330.0, [90.0, 200.0], ['* 12 * * *', '* 17 * * *', '* 4 * * *'], False, False, host_offset_h=off_h); n += 1
             if pr: fails.append({'key': f"loop/host-offset={off_h}", 'failed_clauses': pr})
         for slow in (1.5, 3.0):          # listing latency above 1 s: the delay must be computed AFTER the listing, otherwise the send is late by the latency
             pr = loop_case(30.0, 330.0, [200.0, 250.5], ['* * * * *'], False, False, slow_listing=slow, check_oneshots=True); n += 1
             if pr: fails.append({'key': f"loop/start+30.0/slow-listing={slow}/one-shots", 'failed_clauses': pr})
+        pr = loop_case(0.4, 330.0, [90.0, 150.0], ['* * * * *'], False, False, stable_ids='async'); n += 1
+        if pr: fails.append({'key': "loop/stable-ids/async-post_send", 'failed_clauses': pr})
         for start_off in (0.4, 59.7):          # a send that fails once must not affect later occurrences, also for sources that list the same schedule ids at every poll
             pr = loop_case(start_off, 330.0, [90.0], ['* * * * *', '*/2 * * * *'], False, True, stable_ids=True); n += 1
             if pr: fails.append({'key': f"loop/start+{start_off}/stable-ids/failing-send", 'failed_clauses': pr})
